@@ -230,6 +230,46 @@ pub fn run(ctx: &mut Ctx) -> (&'static str, String, bool) {
         ctx.extra("token_level_strings_trail_byte_5e", json!(ntok));
     }
 
+    // third family: *every* BMP character whose last wire byte is 0x5E, whatever its lead byte (the hand-picked three above
+    // have lead bytes 0x81, 0x83, 0xA4; "鍈" FA 5E in CP932's IBM extension rows has one above 0xEF), followed by each
+    // letter / digit that would form a control code with that byte, alone and before a character of another codepage.
+    // The library's encoder only selects the characters here; check_string judges them like any other string.
+    {
+        let cands: Vec<char> = (0x80u32..0x1_0000)
+            .into_par_iter()
+            .filter_map(char::from_u32)
+            .filter(|c| {
+                let b = codepages::to_lossy_bytes(&c.to_string()).into_owned();
+                b.len() >= 2 && b.last() == Some(&0x5E)
+            })
+            .collect();
+        let leads: std::collections::BTreeSet<u8> =
+            cands.iter().map(|c| { let b = codepages::to_lossy_bytes(&c.to_string()).into_owned(); b[b.len() - 2] }).collect();
+        const FOLLOW: [&str; 14] = ["L", "G", "C", "E", "T", "B", "J", "H", "S", "K", "8", "^", "0", "h"];
+        const TAIL: [&str; 4] = ["", "é", "я", " x"];
+        let parts: Vec<Part> = cands
+            .par_iter()
+            .map(|c| {
+                let mut p = Part::new();
+                for f in FOLLOW {
+                    for t in TAIL {
+                        check_string(&format!("{c}{f}{t}"), &mut p, true);
+                        check_string(&format!("a{c}{f}{t}"), &mut p, true);
+                    }
+                }
+                p
+            })
+            .collect();
+        for p in parts {
+            ctx.merge(p);
+        }
+        if cands.len() < 100 || leads.iter().all(|l| *l < 0xF0) {
+            ctx.inconclusive(format!("only {} characters with a 0x5E trail byte found (lead bytes {:02x?})", cands.len(), leads));
+        }
+        ctx.extra("trail_byte_5e_characters", json!(cands.len()));
+        ctx.extra("trail_byte_5e_distinct_lead_bytes", json!(leads.len()));
+    }
+
     // random longer strings: (a) over an encodable repertoire, (b) arbitrary Unicode (no codepage clause)
     let n = ctx.tier.pick(400_000u64, 20_000_000u64);
     let base = ctx.rng.fork(12);
